@@ -59,7 +59,7 @@ def stretch(job, text, pos, full, r, out):
     parse = job['_parse']
     for k in (2, 3):
         t2 = re.sub(' +', lambda m: m.group(0) * k, text)
-        o2 = impl.run(parse, t2, 0, full, spans=False, time_limit=1.0)
+        o2 = impl.run(parse, t2, 0, full, spans=False, time_limit=1.0, patient=True)
         if o2['kind'] != 'RET':
             return 'stretch-%dx-outcome-%s' % (k, o2['kind'])
         if o2['value'] != e1.strip_spans(out['value']):
